@@ -1702,5 +1702,6 @@ func TestVerifC07(t *testing.T) {
 	}
 	kit.Run(t, "C07", famIndep, kit.N(800, 12000), runIndep)
 	kit.Run(t, "C07", famIndepWide, kit.N(24, 400), runIndepWide)
+	kit.Run(t, "C07", famRmLife, kit.N(4000, 80000), runLife)
 	kit.End()
 }
